@@ -182,6 +182,11 @@ def struct_has_field(F, ty, field):
 
 # --------------------------------------------------------------------------------------------------
 def run(ctx):
+    _run_main(ctx)
+    denial_only_from_the_session(ctx)
+
+
+def _run_main(ctx):
     F = ctx.facts
     ctx.explanation = ("Every site that can yield an authentication success is dominated by its verifier's success (two-factor handlers: "
                        "second factor verified and password not yet tried); finished sessions reject steps; state writers, issue_uat callers, "
@@ -520,3 +525,42 @@ def run(ctx):
             ctx.check(ok, "K3-validity", fn["fn"], f"live-state:{v}" + (f"#{k}" if k else ""), f"under {via}",
                       f"AuthSessionState::{v} is built without the account validity-window guard (guards: {s.render()}) — an expired or "
                       "not-yet-valid account could authenticate", file=fn["file"], line=s.line)
+
+
+# ---------------------------------------------------------------------------------------------------------------------
+# "Denial is final" holds because a Denied reply is only ever produced by the session's own state functions, which record
+# the denial in the stored session state (K1-state-writers: end_session writes Denied; start_session / validate_creds
+# write the state they return). A Denied reply built anywhere else tells the client "denied" while the stored session
+# stays in progress and accepts the next step.
+
+DENIED_PRODUCERS = {
+    AS + "AuthSession::new": "initial state of a session that is denied at creation (no live state is stored, K3-validity)",
+    AS + "AuthSession::new_reauth": "as new",
+    AS + "AuthSession::start_session": "session state function",
+    AS + "AuthSession::validate_creds": "session state function",
+    AS + "AuthSession::end_session": "session state function (writes AuthSessionState::Denied)",
+    "kanidmd_lib::idm::reauth::<impl idm::server::IdmServerAuthTransaction<'_>>::reauth_init":
+        "softlocked before any session is created: there is no session to finalise",
+}
+
+
+def denial_only_from_the_session(ctx):
+    F = ctx.facts
+    D = AUTHSTATE + "::Denied"
+    seen = set()
+    for crate in (LIB, CORE):
+        for n in sorted(F.fns_mentioning(crate, "AuthState::Denied")):
+            fn = F.fn(crate, n)
+            if fn.get("test"):
+                continue
+            cs = noexp(constructs(fn["body"], D))
+            if not cs:
+                continue
+            base = re.sub(r"::\{closure#\d+\}", "", fn["fn"])
+            seen.add(base)
+            ctx.check(base in DENIED_PRODUCERS, "K1-denied-producers", fn["fn"], "constructs:AuthState::Denied",
+                      f"{short(base)}: {DENIED_PRODUCERS.get(base, '')}",
+                      f"{short(base)} builds an AuthState::Denied reply itself instead of going through AuthSession::end_session / the session state "
+                      "functions: the client is told the step was denied while the stored session is not finalised and accepts further steps",
+                      file=fn["file"], line=cs[0].get("line"))
+    ctx.floor("K1-denied-producers", "functions constructing AuthState::Denied", len(seen), 6)
